@@ -561,10 +561,27 @@ def check_sync(ctx, n):
         tf = hx(bytes.fromhex(case["to_find"])) if case["to_find"] else "none"
         lines.append(f"sync {tf} {1 if case['static_ip'] else 0}")
         expect.append("ok")
-        for (p, ip, port), r in zip(case["seq"], run_sync(case)):
+        results = run_sync(case)
+        for (p, ip, port), r in zip(case["seq"], results):
             lines.append(f"sd {hx(bytes.fromhex(p))} {hx(ip.encode('latin1'))} {port}")
             expect.append(r)
         ctx.count("evaluations")
+        # direct oracle on the blocking locator (no model): each responding spa once, with the first reply's fields (this class
+        # lists every spa; its spa_to_find only ends the wait early - see the manifest note)
+        want, seen = [], set()
+        for k, ((p, ip, port), r) in enumerate(zip(case["seq"], results)):
+            pr = _parse_spa_reply(bytes.fromhex(p))
+            if pr is not None and pr[0] not in seen and not r.startswith(("err:", "raised", "unhandled")):
+                seen.add(pr[0])
+                want.append(f"{hx(pr[0])}/{hx(pr[1])}/{hx(ip.encode('latin1'))}/{port}")
+            if r.startswith("found="):
+                got = r.split("spas=")[1]
+                got_l = [] if got == "none" else got.split(",")
+                ids = [g.split("/")[0] for g in got_l]
+                if len(set(ids)) != len(ids) or got_l != want:
+                    ctx.violation("sync:" + ("listed-twice" if len(set(ids)) != len(ids) else "wrong-list"),
+                                  {"kind": "sync", "case": dict(case, seq=case["seq"][:k + 1])}, want, got_l)
+                    break
     try:
         model = Driver("Driver/C15.lean").run(lines)
     except DriverFailure as e:
@@ -650,6 +667,20 @@ def replay(inp):
             return False, "imports"
         except BaseException as e:  # noqa
             return True, f"{type(e).__name__}: {e}"
+    if inp.get("kind") == "sync":
+        case = inp["case"]
+        results = run_sync(case)
+        last = results[-1] if results else ""
+        if not last.startswith("found="):
+            return False, last
+        got = last.split("spas=")[1]
+        ids = [] if got == "none" else [g.split("/")[0] for g in got.split(",")]
+        want = []
+        for p_, ip, port in case["seq"]:
+            pr = _parse_spa_reply(bytes.fromhex(p_))
+            if pr is not None and hx(pr[0]) not in want:
+                want.append(hx(pr[0]))
+        return ids != want, {"listed": ids, "expected": want}
     script = inp["script"]
     res = run_script(script)
     v = monitor(script, res)
